@@ -109,11 +109,12 @@ def cases(tier, seed):
         for mode in ("lr", "glr"):
             # split over the priority of slot A (concrete) to parallelise; the union is the stated range
             for pa in range(prmax + 1):
-                out.append({
-                    "name": "%s|%s|prior(A)=%d" % (pn, mode, pa),
-                    "params": {"pool": pn, "mode": mode, "pa": pa, "prmax": prmax, "marks": [None] * 4, "icase": False},
-                    "budget_s": 3000,
-                })
+                for pb in (range(prmax + 1) if mode == "lr" else [None]):
+                    out.append({
+                        "name": "%s|%s|prior(A)=%d%s" % (pn, mode, pa, "" if pb is None else "|prior(B)=%d" % pb),
+                        "params": {"pool": pn, "mode": mode, "pa": pa, "pb": pb, "prmax": prmax, "marks": [None] * 4, "icase": False},
+                        "budget_s": 3000,
+                    })
     markvecs = [[False, None, None, None], [None, None, True, None], [None, False, None, True]]
     for pn in (["str-vs-regex"] if tier == "quick" else ["str-vs-regex", "custom", "strings-2"]):
         for mv in markvecs[: 2 if tier == "quick" else 3]:
@@ -221,6 +222,8 @@ def build(params, symbolic):
             if w[i] > "\x7f":
                 raise Pre()
         prio = {"A": params["pa"], "B": pb, "C": pc, "D": pd}
+        if params.get("pb") is not None and pb != params["pb"]:
+            raise Pre()  # this worker's slice of the priority range
         for s in "BCD":
             if prio[s] < 0 or prio[s] > params["prmax"]:
                 raise Pre()
